@@ -83,3 +83,37 @@ impl PartialEq for Invoke {
         unimplemented!()
     }
 }
+
+// Decoding result of the record layer (three-valued like the token layer, see spec_dec.rs)
+pub enum Dec<T> {
+    Ok(T, Seq<u8>),
+    Fail,
+    Unknown,
+}
+
+
+/// the bytes read_data consumes and the value it returns: uninterpreted (the Data codec is not under contract)
+pub uninterp spec fn d_data(s: Seq<u8>) -> Dec<Data>;
+
+pub mod trusted_data_codec {
+    use super::*;
+
+    /// ASSUMED (the Data value codec DefaultProtocolWriter::write_data / read_data_value_payload is not under contract):
+    /// reading what write_data wrote yields the same value, whatever follows
+    #[verifier::external_body]
+    pub proof fn axiom_rt_data(d: Data, tail: Seq<u8>)
+        requires
+            data_encodable(d),
+        ensures
+            d_data(enc_data(d) + tail) == Dec::Ok(d, tail),
+    {
+    }
+
+    /// Data::Null() is empty (src/datamodel/mod.rs, Data::is_empty)
+    #[verifier::external_body]
+    pub proof fn axiom_null_is_empty()
+        ensures
+            data_is_empty(data_null()),
+    {
+    }
+}
